@@ -308,6 +308,33 @@ def param_mutations(fn, skip=('self', 'cls')):
         for p, how in hits:
             if not rebind[p] or not cfg.must_pass(i, rebind[p]):
                 out.append((p, how, n.lineno))
+    # local names bound to a possible view of a parameter (c = np.ascontiguousarray(cu); c[dof] *= inc)
+    def alias_src(v):
+        txt = norm(v)
+        for p_ in params:
+            if txt == p_ or re.match(r'^np\.(asarray|ascontiguousarray|atleast_1d|ravel|asanyarray)\(%s[,)]' % re.escape(p_), txt) \
+                    or re.match(r'^%s\.(ravel|reshape|view|squeeze)\(' % re.escape(p_), txt) or txt == p_ + '.T':
+                if '.copy()' not in txt and 'copy=True' not in txt:
+                    return p_
+        return None
+    al, nonal = {}, {}
+    for i, n in cfg.nodes.items():
+        if isinstance(n, ast.Assign) and len(n.targets) == 1 and isinstance(n.targets[0], ast.Name) and n.targets[0].id not in params:
+            src = alias_src(n.value)
+            (al if src else nonal).setdefault(n.targets[0].id, []).append((i, src))
+    for i, n in cfg.nodes.items():
+        tg = n.targets if isinstance(n, ast.Assign) else [n.target] if isinstance(n, ast.AugAssign) else []
+        for t in tg:
+            if isinstance(t, ast.Subscript) and isinstance(t.value, ast.Name) and t.value.id in al:
+                L = t.value.id
+                avoid = {j for j, _ in nonal.get(L, [])}
+                for a, src in al[L]:
+                    # the parameter itself not replaced by a copy before the alias was taken
+                    if rebind.get(src) and cfg.must_pass(a, rebind[src]):
+                        continue
+                    if i in cfg.reachable(a, avoid=avoid):
+                        out.append((src, 'element store through %s, a possible view of %s' % (L, src), n.lineno))
+                        break
     return out
 
 
